@@ -1,4 +1,5 @@
 import Sourmash.Lemmas.LookupExact
+import Sourmash.Lemmas.IndexExtend
 /-! Property C07 — index lookups report exact overlaps: no false negatives or positives.
 Property theorems only; helper lemmas live in `Sourmash/Lemmas/LookupCounter.lean`, `LookupExact.lean`.
 
@@ -35,6 +36,19 @@ theorem disk_exact (c : ManyCodec) (db : Db) (C : Coll) (Q : List Nat)
     (hidx : ∀ h ∈ Q, lookupIds c (db.hashes h) = refIds C h) :
     diskCounter c db Q = refCounter C Q :=
   tally_exact C Q _ hidx
+
+/-- T-disk_exact, closed: for an index produced by `RevIndex::create` under *any* schedule of the build
+tasks and *any* grouping of the merge operands (the conclusion of C09's T-disk_schedule_free), under the
+two recorded roaring assumptions -/
+theorem disk_exact_of_create {c : ManyCodec} (hc : c.Lawful) (C : Coll) (hn : C.length ≤ 2 ^ 32)
+    (choices : List Nat) (g : Grouping) (hg : GroupingOK g) (Q : List Nat) :
+    diskCounter c (createDb c C choices g) Q = refCounter C Q := by
+  apply disk_exact
+  intro h _
+  rw [createDb_eq]
+  exact (build_from_scratch hc C hn _ (runSchedule_interleaving choices _) g hg).2.1 h
+example : diskCounter listCodec (createDb listCodec [[1, 2], [2, 3]] [1, 1, 0] (fun _ ops => [ops.map MTree.leaf])) [2, 3]
+    = [(0, 1), (1, 2)] := by decide
 
 /-- T-mem_exact: given that the hash→colour→ids maps send each query hash to exactly the datasets
 containing it (property C09, `mem_reduce`), mem `counter_for_query` is the exact overlap counter -/
